@@ -451,3 +451,118 @@ def _check_cellvec(prog, f):
                             a, b, i, x[1], bitsem.bit_str(x[0]), i // b, i % b, n - 1 - i), nparts
                 return False, "|S|=%d, |G|=%d: %d cells, expected %d" % (a, b, len(got), n), nparts
     return True, "cells are rebuilt row-major under cell-mask bit |S||G|-1-i for every (|S|, |G|) with product 1..=64; None otherwise (%d partitions)" % nparts, nparts
+
+
+# ------------------------------------------------------------------ character maps of Df88591String (X-map)
+class CharInterp(GInterp):
+    def call(self, st, t):
+        c = t.get("resolved") or t["callee"]
+        args = None
+        if c == "core::char::methods::<impl char>::from_u32":
+            args = [self.operand(st, a) for a in t["args"]]
+            x = args[0]
+            lo, hi = bitsem.lin_range(x) if lin_parts(x) is not None else (None, None)
+            if lo is not None and 0 <= lo and hi <= 0xD7FF:
+                return Adt("core::option::Option", 1, "Some", [x])
+            raise Undecided("char::from_u32 of a value that may not be a scalar value")
+        if c in ("core::option::Option::<T>::unwrap", "core::result::Result::<T, E>::unwrap"):
+            args = [self.operand(st, a) for a in t["args"]]
+            o = args[0]
+            if isinstance(o, Adt) and o.vname in ("Some", "Ok"):
+                return o.fields[0]
+            if isinstance(o, Adt):
+                raise Panic("unwrap of %s" % o.vname)
+            raise Undecided("unwrap of an unknown value")
+        if c in ("core::char::convert::<impl core::convert::From<u8> for char>::from", "core::char::convert::<impl core::convert::From<char> for u32>::from") \
+                or bitsem.re.fullmatch(r"core::convert::num::<impl core::convert::From<u(8|16|32)> for u(16|32|64|size)>::from", c):
+            args = [self.operand(st, a) for a in t["args"]]
+            return args[0]
+        if bitsem.re.fullmatch(r"core::convert::num::<impl core::convert::TryFrom<u(16|32|64|size)> for u(8|16|32)>::try_from", c) \
+                or c == "core::char::convert::<impl core::convert::TryFrom<char> for u8>::try_from":
+            args = [self.operand(st, a) for a in t["args"]]
+            x = args[0]
+            bits = int(bitsem.re.search(r"for u(\d+)>::try_from$", c).group(1))
+            lo, hi = bitsem.lin_range(x) if lin_parts(x) is not None else (None, None)
+            if lo is None:
+                raise Undecided("try_from of an unmodelled value")
+            if 0 <= lo and hi < (1 << bits):
+                return Adt("core::result::Result", 0, "Ok", [x])
+            if lo >= (1 << bits):
+                return Adt("core::result::Result", 1, "Err", [bitsem.Opaque("TryFromIntError", ())])
+            raise Undecided("try_from may or may not succeed inside one region")
+        if c in ("core::result::Result::<T, E>::map_or", "core::option::Option::<T>::map_or"):
+            args = [self.operand(st, a) for a in t["args"]]
+            r, dflt, fn_ = args
+            if isinstance(r, Adt) and r.vname in ("Ok", "Some"):
+                if isinstance(fn_, tuple) and fn_[0] == "fn" and fn_[1] in self.prog.fns:
+                    return self.exec_fn(st, self.prog.fns[fn_[1]], [r.fields[0]])
+                if isinstance(fn_, Closure):
+                    return self.exec_closure(st, fn_, [r.fields[0]])
+                raise Undecided("map_or with an unmodelled function")
+            if isinstance(r, Adt):
+                return dflt
+            raise Undecided("map_or of an unknown value")
+        if c in ("core::result::Result::<T, E>::unwrap_or", "core::option::Option::<T>::unwrap_or"):
+            args = [self.operand(st, a) for a in t["args"]]
+            r = args[0]
+            if isinstance(r, Adt) and r.vname in ("Ok", "Some"):
+                return r.fields[0]
+            if isinstance(r, Adt):
+                return args[1]
+            raise Undecided("unwrap_or of an unknown value")
+        if c == "tinyvec::ArrayVec::<A>::try_push":
+            args = [self.operand(st, a) for a in t["args"]]
+            v = self.vec_of(st, args[0])
+            if v is None:
+                raise Undecided("try_push on an unmodelled vector")
+            full = self.choice("full")
+            if full:
+                return Adt("core::option::Option", 1, "Some", [args[1]])
+            v.items.append((self.guard, args[1]))
+            return Adt("core::option::Option", 0, "None", [])
+        if c in ("tinyvec::ArrayVec::<A>::len", "tinyvec::ArrayVec::<A>::capacity"):
+            args = [self.operand(st, a) for a in t["args"]]
+            if self.vec_of(st, args[0]) is not None:
+                # len in terms of the unknown fill state: capacity = CAP, len = CAP if full else CAP - 1 (room for one more)
+                full = self.choice("full")
+                if c.endswith("capacity"):
+                    return bitsem.Lin(0, 0) if False else 1000
+                return 1000 if full else 999
+        return GInterp.call(self, st, t)
+
+    def choice(self, name):
+        return self.choices[name]
+
+    def cast(self, v, src_ty, dst_ty):
+        if lin_parts(v) is not None and not isinstance(v, int) and dst_ty.get("k") in ("char", "uint", "int"):
+            d = bitsem.ty_bits(dst_ty) if dst_ty.get("k") != "char" else (32, False)
+            lo, hi = bitsem.lin_range(v)
+            if d and lo >= 0 and hi < (1 << d[0]):
+                return v
+            raise Undecided("narrowing cast of a character code that does not fit")
+        if isinstance(v, int) and dst_ty.get("k") == "char":
+            return v
+        return GInterp.cast(self, v, src_ty, dst_ty)
+
+
+def char_map(prog, path, regions, arg, with_self=False, full=False):
+    """Evaluate a Df88591String function per region of its character / byte argument (Q = the code).
+    Returns [(region, return value, pushed values)] or raises Undecided / Panic."""
+    f = prog.fn(path)
+    out = []
+    for lo, hi in regions:
+        bitsem.QMIN, bitsem.QMAX = lo, hi
+        try:
+            it = CharInterp(prog, f, 64)
+            it.choices = {"full": full}
+            st = State()
+            vec = GVec()
+            if with_self:
+                st.self_fields = Tup([vec])
+                st.locals[1] = Ref(("self", ()))
+            st.locals[arg] = bitsem.Lin(1, 0)
+            ret = it.run_fn(st)
+            out.append(((lo, hi), ret, [v for g, v in vec.items]))
+        finally:
+            bitsem.QMIN, bitsem.QMAX = 0, 1 << 58
+    return out
